@@ -174,7 +174,7 @@ def main(args):
         if r['status'] == 'harness':
             batch.harness_errors.append(r['reason']); continue
         modes[r['mode']] = modes.get(r['mode'], 0) + 1
-        digests.append([k, r['status'], r.get('class'), r.get('reason')])
+        digests.append([k, r['status'], r.get('class'), r.get('reason'), r.get('hh'), r.get('probes'), r.get('touched'), r.get('probes_hit')])
         for p in r.get('probes_hit', []):
             probes_hit[p] = probes_hit.get(p, 0) + 1
         if r['status'] == 'discard':
